@@ -67,6 +67,7 @@ func wellFormedSupported(s string) bool { return refClass(s) == "supported" }
 type checker struct {
 	r      *ev.Run
 	parsed int
+	held   []heldEnc
 }
 
 // checkString runs every per-string rule on s.
@@ -120,6 +121,31 @@ func (c *checker) checkString(s string) {
 }
 
 // checkRef: ref was obtained by parsing s.
+// hold keeps an encoding returned by MarshalBinary; every 64 refs all held encodings are compared
+// with what they were when returned.
+func (c *checker) hold(s string, got, want []byte) {
+	c.held = append(c.held, heldEnc{s, got, append([]byte(nil), want...)})
+	if len(c.held) >= 64 {
+		c.checkHeld()
+	}
+}
+
+func (c *checker) checkHeld() {
+	for _, h := range c.held {
+		c.r.Eval(1)
+		if !bytes.Equal(h.got, h.want) {
+			c.r.Violation("binary-encoding/changed-after-return", fmt.Sprintf("the slice returned by MarshalBinary(%q) changed after later calls: now %x, was %x", h.s, h.got, h.want), h.s)
+			break
+		}
+	}
+	c.held = c.held[:0]
+}
+
+type heldEnc struct {
+	s         string
+	got, want []byte
+}
+
 func (c *checker) checkRef(s string, ref blob.Ref, cls string) {
 	r := c.r
 	if got := ref.String(); got != s {
@@ -148,12 +174,67 @@ func (c *checker) checkRef(s string, ref blob.Ref, cls string) {
 			r.Violation("json-roundtrip/"+cls, fmt.Sprintf("Unmarshal(Marshal(%q)) = %v, %v", s, back, err), s)
 		}
 	})
+	// derived text accessors agree with the text form
+	r.Guard("accessors", s, func() {
+		dash := strings.IndexByte(s, '-')
+		if got := ref.HashName() + "-" + ref.Digest(); got != s {
+			r.Violation("accessors/"+cls, fmt.Sprintf("HashName()+\"-\"+Digest() = %q for ref %q", got, s), s)
+		}
+		for _, n := range []int{0, 1, 2, 7, 10, len(s) - dash - 2, len(s) - dash - 1, len(s) - dash, 200} {
+			if n < 0 {
+				continue
+			}
+			want := s[dash+1:]
+			if n < len(want) {
+				want = want[:n]
+			}
+			if got := ref.DigestPrefix(n); got != want {
+				r.Violation("accessors/"+cls, fmt.Sprintf("%q.DigestPrefix(%d) = %q want %q", s, n, got, want), s)
+			}
+		}
+		if got := ref.DomID(); got != "camli-"+s {
+			r.Violation("accessors/"+cls, fmt.Sprintf("%q.DomID() = %q", s, got), s)
+		}
+		if cls == "supported" {
+			raw, _ := hex.DecodeString(s[dash+1:])
+			var w32 uint32
+			var w64 uint64
+			for _, b := range raw[:4] {
+				w32 = w32<<8 | uint32(b)
+			}
+			for _, b := range raw[:8] {
+				w64 = w64<<8 | uint64(b)
+			}
+			if ref.Sum32() != w32 || ref.Sum64() != w64 {
+				r.Violation("accessors/"+cls, fmt.Sprintf("%q Sum32=%x Sum64=%x want %x %x", s, ref.Sum32(), ref.Sum64(), w32, w64), s)
+			}
+		}
+		sr := blob.SizedRef{Ref: ref, Size: 12345}
+		jb, err := json.Marshal(sr)
+		var back blob.SizedRef
+		if err != nil || json.Unmarshal(jb, &back) != nil || back != sr {
+			r.Violation("json-roundtrip/"+cls, fmt.Sprintf("SizedRef JSON round trip of %q: %s -> %v (%v)", s, jb, back, err), s)
+		}
+	})
 	// binary
 	r.Guard("MarshalBinary", s, func() {
 		b, err := ref.MarshalBinary()
 		if err != nil {
 			r.Violation("binary-roundtrip/"+cls, fmt.Sprintf("MarshalBinary(%q): %v", s, err), s)
 			return
+		}
+		// the encoding is the documented one (name, '-', raw digest bytes) and is the caller's to keep:
+		// it is held and compared again after later calls (an encoder handing out a pooled or shared
+		// buffer would change it)
+		dash := strings.IndexByte(s, '-')
+		hx := s[dash+1:]
+		if len(hx)%2 == 0 {
+			raw, _ := hex.DecodeString(hx)
+			want := append([]byte(s[:dash+1]), raw...)
+			if !bytes.Equal(b, want) {
+				r.Violation("binary-encoding/"+cls, fmt.Sprintf("MarshalBinary(%q) = %x want %x", s, b, want), s)
+			}
+			c.hold(s, b, want)
 		}
 		var back blob.Ref
 		if err := back.UnmarshalBinary(b); err != nil || back != ref || back.String() != s {
@@ -189,6 +270,146 @@ func (c *checker) checkRef(s string, ref blob.Ref, cls string) {
 			})
 		}
 	}
+}
+
+// checkDecoders feeds UnmarshalBinary and UnmarshalJSON inputs that no encoder produced.
+// Rules: (1) whatever a decoder accepts is a ref whose text form parses back to it and whose
+// re-encoding is the input; (2) a supported hash name with a digest of the wrong length is rejected;
+// (3) JSON values other than a string (or null) are rejected; a JSON string is accepted exactly when
+// Parse accepts its content; (4) decoding into a non-zero Ref fails and leaves it unchanged.
+func (c *checker) checkDecoders(base []blob.Ref) {
+	r := c.r
+	rng := r.Rand("decoders")
+	n := 0
+	tryBin := func(data []byte, mustReject bool, label string) {
+		n++
+		var ref blob.Ref
+		var err error
+		if r.Guard("UnmarshalBinary", hex.EncodeToString(data), func() { err = ref.UnmarshalBinary(data) }) {
+			return
+		}
+		r.Note("decoder_inputs", "binary:"+label)
+		if err != nil {
+			if ref.Valid() {
+				r.Violation("decoder/binary-error-but-set", fmt.Sprintf("UnmarshalBinary(%x) failed (%v) but set the ref to %v", data, err, ref), hex.EncodeToString(data))
+			}
+			return
+		}
+		if mustReject {
+			r.Violation("decoder/binary-accepts-malformed/"+label, fmt.Sprintf("UnmarshalBinary(%x) accepted: %v", data, ref), hex.EncodeToString(data))
+			return
+		}
+		if !ref.Valid() {
+			r.Violation("decoder/binary-nil-without-error", fmt.Sprintf("UnmarshalBinary(%x) returned nil and an invalid ref", data), hex.EncodeToString(data))
+			return
+		}
+		back, ok := blob.Parse(ref.String())
+		if !ok || back != ref {
+			r.Violation("decoder/binary-unparsable-result/"+label, fmt.Sprintf("UnmarshalBinary(%x) gave %q which does not parse back to it", data, ref.String()), hex.EncodeToString(data))
+			return
+		}
+		enc, err := ref.MarshalBinary()
+		if err != nil || !bytes.Equal(enc, data) {
+			r.Violation("decoder/binary-reencode-differs/"+label, fmt.Sprintf("UnmarshalBinary(%x) = %v re-encodes to %x (%v)", data, ref, enc, err), hex.EncodeToString(data))
+		}
+	}
+	for name, size := range supported {
+		for _, l := range []int{0, 1, size - 1, size, size + 1, 2 * size, 200} {
+			raw := make([]byte, l)
+			rng.Read(raw)
+			tryBin(append([]byte(name+"-"), raw...), l != size, fmt.Sprintf("supported-len%+d", l-size))
+		}
+		raw := make([]byte, size)
+		rng.Read(raw)
+		tryBin(append([]byte(strings.ToUpper(name)+"-"), raw...), false, "upper-name")
+		tryBin(append([]byte(name), raw...), false, "no-dash")
+		tryBin(append([]byte(name+"--"), raw[:size-1]...), false, "double-dash")
+		dashes := bytes.Repeat([]byte{'-'}, size)
+		tryBin(append([]byte(name+"-"), dashes...), false, "digest-of-dashes")
+	}
+	for _, d := range [][]byte{nil, {}, []byte("-"), []byte("-ab"), []byte("foo"), []byte("foo-"), []byte("foo-\x01"), []byte("foo-\x01\x02"), []byte("x-\xff"), []byte("fakeref-\x01\x02")} {
+		tryBin(d, false, "other")
+	}
+	// into a non-zero ref
+	for _, rf := range base[:8] {
+		keep := rf
+		enc, _ := base[9].MarshalBinary()
+		if err := rf.UnmarshalBinary(enc); err == nil || rf != keep {
+			r.Violation("decoder/into-nonzero", fmt.Sprintf("UnmarshalBinary into the non-zero ref %v: err=%v, now %v", keep, err, rf), keep.String())
+		}
+		if err := json.Unmarshal([]byte(`"`+base[9].String()+`"`), &rf); err == nil || rf != keep {
+			r.Violation("decoder/into-nonzero", fmt.Sprintf("UnmarshalJSON into the non-zero ref %v: err=%v, now %v", keep, err, rf), keep.String())
+		}
+		n += 2
+	}
+	// JSON
+	tryJSON := func(doc string, label string) {
+		n++
+		var ref blob.Ref
+		var err error
+		if r.Guard("UnmarshalJSON", doc, func() { err = json.Unmarshal([]byte(doc), &ref) }) {
+			return
+		}
+		r.Note("decoder_inputs", "json:"+label)
+		isPlainString := len(doc) >= 2 && doc[0] == '"' && doc[len(doc)-1] == '"' && !strings.ContainsAny(doc[1:len(doc)-1], "\\\"") && isPrintableASCII(doc[1:len(doc)-1])
+		switch {
+		case doc == "null":
+			if err != nil || ref.Valid() {
+				r.Violation("decoder/json-null", fmt.Sprintf("Unmarshal(null) = %v, %v", ref, err), doc)
+			}
+		case isPlainString:
+			content := doc[1 : len(doc)-1]
+			want, ok := blob.Parse(content)
+			if ok != (err == nil) || (ok && ref != want) {
+				r.Violation("decoder/json-vs-parse/"+label, fmt.Sprintf("Unmarshal(%s) = %v, %v but Parse says %v, %v", doc, ref, err, want, ok), doc)
+			}
+		default:
+			// numbers, booleans, objects, arrays, strings with escapes: whatever is accepted must be a ref
+			// that its own text form parses back to; non-strings must be refused
+			if err == nil && doc[0] != '"' {
+				r.Violation("decoder/json-accepts-nonstring/"+label, fmt.Sprintf("Unmarshal(%s) accepted: %v", doc, ref), doc)
+			}
+			if err == nil && ref.Valid() {
+				if back, ok := blob.Parse(ref.String()); !ok || back != ref {
+					r.Violation("decoder/json-unparsable-result/"+label, fmt.Sprintf("Unmarshal(%s) gave %q which does not parse back", doc, ref.String()), doc)
+				}
+			}
+			if err != nil && ref.Valid() {
+				r.Violation("decoder/json-error-but-set", fmt.Sprintf("Unmarshal(%s) failed (%v) but set the ref to %v", doc, err, ref), doc)
+			}
+		}
+	}
+	for _, doc := range []string{"null", "0", "12", "true", "false", "{}", "[]", `{"a":1}`, `["sha1-0beec7b5ea3f0fdbc95d0dd47f3c5bc275da8a33"]`, `""`, `"x"`, `"-"`} {
+		tryJSON(doc, "literal")
+	}
+	for _, rf := range base[:20] {
+		s := rf.String()
+		dash := strings.IndexByte(s, '-')
+		tryJSON(`"`+s+`"`, "valid")
+		tryJSON(`"`+strings.ToUpper(s)+`"`, "upper")
+		tryJSON(`"`+s[:dash+1]+strings.ToUpper(s[dash+1:])+`"`, "upper-digest")
+		tryJSON(`"`+s[:len(s)-1]+`"`, "short-by-one")
+		tryJSON(`"`+s+`0"`, "long-by-one")
+		tryJSON(`"`+s[:dash+1]+`0b"`, "two-digits")
+		tryJSON(`"`+s[:dash+1]+`"`, "empty-digest")
+		tryJSON(`" `+s+`"`, "leading-space")
+		tryJSON(`"`+s+` "`, "trailing-space")
+		tryJSON(`"`+s[:dash]+`\u002d`+s[dash+1:]+`"`, "escaped-dash")
+		tryJSON(`"\u0073`+s[1:]+`"`, "escaped-first-letter")
+		tryJSON(s, "unquoted")
+		tryJSON(`"`+s, "unterminated")
+	}
+	r.Eval(n)
+	r.Extra("decoder_inputs_tried", n)
+}
+
+func isPrintableASCII(s string) bool {
+	for i := 0; i < len(s); i++ {
+		if s[i] < 0x20 || s[i] > 0x7e {
+			return false
+		}
+	}
+	return true
 }
 
 func neighbours(s string) []string {
@@ -389,6 +610,42 @@ func run(r *ev.Run) {
 			}
 		}
 	}
+	// 4a. directed pairs: refs that share a prefix of every possible length and differ at one digit
+	// (any comparison shortcut over part of the digest shows here, never on random pairs)
+	directed := 0
+	for _, rf := range base {
+		s := rf.String()
+		dash := strings.IndexByte(s, '-')
+		for pos := dash + 1; pos < len(s); pos++ {
+			for _, ch := range []byte{'0', 'f', s[pos] - 1, s[pos] + 1} {
+				if ch == s[pos] {
+					continue
+				}
+				b := []byte(s)
+				b[pos] = ch
+				t := string(b)
+				p, ok := blob.Parse(t)
+				if !ok {
+					continue
+				}
+				directed++
+				if rf.Less(p) != (s < t) || p.Less(rf) != (t < s) {
+					r.Violation("Less/supported", fmt.Sprintf("%s Less %s = %v and reverse %v, text order says %v", s, t, rf.Less(p), p.Less(rf), s < t), []string{s, t})
+				}
+				if rf == p || rf.EqualString(t) || p.EqualString(s) {
+					r.Violation("EqualString/supported", fmt.Sprintf("distinct refs %s and %s compare equal", s, t), []string{s, t})
+				}
+				if (blob.SizedRef{Ref: rf, Size: 1}).Less(blob.SizedRef{Ref: p, Size: 1}) != (s < t) {
+					r.Violation("SizedRef.Less/supported", fmt.Sprintf("%s vs %s", s, t), []string{s, t})
+				}
+			}
+		}
+	}
+	r.Eval(directed)
+	r.Extra("directed_shared_prefix_pairs", directed)
+	c.checkHeld()
+	c.checkDecoders(base)
+
 	sample := refs
 	if lim := r.Pick(700, 2500); len(sample) > lim {
 		rng.Shuffle(len(sample), func(i, j int) { sample[i], sample[j] = sample[j], sample[i] })
